@@ -220,6 +220,8 @@ def add_tag(tag_name: str):
     DuplicateTagError
         If a tag_name that already exists is used.
     """
+    if tag_name in globals():
+        raise DuplicateTagError(tag_name)
     _module_library.add_tag(tag_name)
 
 
